@@ -237,7 +237,8 @@ def _gen_impose(rng):
 def _gen_cost(rng):
     n = rng.choice([1, 1, 2])
     npts = rng.choice([3, 5, 8, 12])
-    xs = [[rng.choice([0.0, 1.0, 2.0, 3.0, 4.0, 5.0, 6.0, 7.0]) + rng.random() * 0.5 for _ in range(n)] for _ in range(npts)]
+    jit = 0.0 if rng.random() < 0.4 else 0.5       # without jitter parameter values repeat (a coordinate held fixed, a discrete parameter)
+    xs = [[rng.choice([0.0, 1.0, 2.0, 3.0, 4.0, 5.0, 6.0, 7.0]) + rng.random() * jit for _ in range(n)] for _ in range(npts)]
     ys = [rng.choice([0.0, 0.5, 1.0, 2.0, 5.0]) for _ in range(npts)]
     return dict(kind="cost", xs=xs, ys=ys, clip=rng.random() < 0.3, limit=rng.choice([0.5, 1.0, 1.0, 4.0]),
                 samples=rng.choice([None, 1, 1, 2, 3]))
@@ -615,7 +616,14 @@ def _run_cost(case):
         warnings.simplefilter("ignore")
         try:
             r = ct.collapse_cost(m, clip=case["clip"], limit=case["limit"], samples=case["samples"])
-            return {"det": {str(int(k)): [[float(a), float(b)] for a, b in v] for k, v in r.items()}}
+            out = {"det": {str(int(k)): [[float(a), float(b)] for a, b in v] for k, v in r.items()}}
+            if r:       # the detector fed its own output as mask
+                try:
+                    r2 = ct.collapse_cost(m, clip=case["clip"], limit=case["limit"], samples=case["samples"], mask=r)
+                    out["again"] = {str(int(k)): [[float(a), float(b)] for a, b in v] for k, v in r2.items()}
+                except Exception as e:
+                    out["again"] = _err(e)
+            return out
         except Exception as e:
             return {"det": _err(e)}
 
@@ -992,6 +1000,11 @@ def oracle(case, obs):
                 for a, b in ivs:
                     if not a <= b:
                         out.append(_fail("cost_intervals_ordered", "collapse.collapse_cost", "inverted-interval", det))
+            again = obs.get("again")
+            if again:       # {} expected: nothing new under its own mask
+                degenerate = any(a == b for ivs in det.values() for a, b in ivs)
+                out.append(_fail("detector_idempotent_under_own_mask", "collapse.collapse_cost",
+                                 "own-output-as-mask-reports-again" + (":degenerate-interval-in-output" if degenerate else ""), dict(det=det, again=again)))
     elif k == "solve":
         out += _oracle_solve(case, obs)
     return out
